@@ -20,6 +20,7 @@ fn main() {
         usage();
     }
     match args[1].as_str() {
+        "selftest" => std::process::exit(props::selftest::run()),
         "list" => {
             for (id, _, _) in props::REGISTRY {
                 println!("{id}");
